@@ -63,6 +63,9 @@ func exec(op string) string {
 	if strings.HasPrefix(op, "gslb ") {
 		return execGslb(op[5:])
 	}
+	if strings.HasPrefix(op, "slb ") {
+		return execSlb(op[4:])
+	}
 	if !strings.HasPrefix(op, "cfg ") {
 		return "bad-op"
 	}
@@ -329,6 +332,202 @@ func genGslb(r *vh.Rand) string {
 	return "gslb " + h + "~" + fmtConf(fn, fw) + "~" + strings.Join(probes, ",")
 }
 
+
+// ---- slb: session-sticky selection on one BalanceRR, fresh Init vs Update histories ------------------------------
+//
+// op = `slb <hist>~<final>~<keys>`: hist = steps separated by `;` (or `-`): a backend conf `addr:port=w,…` (first one =
+// Init, later ones = Update) or `!` = serve one sticky request (which sorts the list); final = the last Update;
+// keys = `<key>:<GetHash(key, 100 * total positive weight of final)>,…` (BackendRR scales conf weights by 100).  result = `fresh=<backend per key>;hist=<…>`.
+
+func parseBackends(s string) (cluster_table_conf.SubClusterBackend, bool) {
+	var out cluster_table_conf.SubClusterBackend
+	seen := map[string]bool{}
+	for _, kv := range strings.Split(s, ",") {
+		i := strings.LastIndexByte(kv, '=')
+		j := strings.LastIndexByte(kv[:max0(i)], ':')
+		if i <= 0 || j <= 0 {
+			return nil, false
+		}
+		w, err1 := strconv.Atoi(kv[i+1:])
+		port, err2 := strconv.Atoi(kv[j+1 : i])
+		if err1 != nil || err2 != nil || seen[kv[:i]] {
+			return nil, false
+		}
+		seen[kv[:i]] = true
+		name, addr := "b-"+kv[:i], kv[:j]
+		out = append(out, &cluster_table_conf.BackendConf{Name: &name, Addr: &addr, Port: &port, Weight: &w})
+	}
+	return out, true
+}
+
+func max0(i int) int {
+	if i < 0 {
+		return 0
+	}
+	return i
+}
+
+func slbDecide(b *bal_slb.BalanceRR, keys []string) string {
+	out := make([]string, len(keys))
+	for i, k := range keys {
+		be, err := b.Balance(bal_slb.WrrSticky, []byte(k))
+		if err != nil || be == nil {
+			out[i] = "-"
+		} else {
+			out[i] = be.AddrInfo
+		}
+	}
+	return strings.Join(out, ",")
+}
+
+func execSlb(body string) string {
+	parts := strings.Split(body, "~")
+	if len(parts) != 3 {
+		return "bad-op"
+	}
+	final, ok := parseBackends(parts[1])
+	if !ok {
+		return "bad-op"
+	}
+	var keys []string
+	for _, p := range strings.Split(parts[2], ",") {
+		i := strings.LastIndexByte(p, ':')
+		if i <= 0 {
+			return "bad-op"
+		}
+		keys = append(keys, p[:i])
+	}
+	var steps []string
+	if parts[0] != "-" {
+		steps = strings.Split(parts[0], ";")
+	}
+	run := func(hist []string) string {
+		seen := map[string]bool{}
+		for k := 0; k < gslbRepeats; k++ {
+			b := bal_slb.NewBalanceRR("c14")
+			inited := false
+			bad := false
+			apply := func(conf cluster_table_conf.SubClusterBackend) {
+				if !inited {
+					b.Init(conf)
+					inited = true
+				} else {
+					b.Update(conf)
+				}
+			}
+			for _, st := range hist {
+				if st == "!" {
+					if inited {
+						b.Balance(bal_slb.WrrSticky, []byte("warmup"))
+					}
+					continue
+				}
+				conf, ok := parseBackends(st)
+				if !ok {
+					bad = true
+					break
+				}
+				apply(conf)
+			}
+			if bad {
+				return "bad-op"
+			}
+			apply(final)
+			seen[slbDecide(b, keys)] = true
+			b.Release()
+		}
+		var out []string
+		for k := range seen {
+			out = append(out, k)
+		}
+		sort.Strings(out)
+		return strings.Join(out, "|")
+	}
+	return "fresh=" + run(nil) + ";hist=" + run(steps)
+}
+
+var slbAddrs = []string{"10.0.0.0:80", "10.0.0.1:80", "10.0.0.2:80", "10.0.0.3:80", "10.0.0.4:80", "10.0.0.5:80", "10.0.0.3:8080", "9.9.9.9:80", "10.0.0.10:80"}
+
+func genBackends(r *vh.Rand, pool []string, lo, hi int) ([]string, []int) {
+	names := subset(r, pool, lo, hi)
+	ws := make([]int, len(names))
+	for i := range ws {
+		ws[i] = r.Range(1, 5)
+		if r.Chance(1, 8) {
+			ws[i] = 0
+		}
+	}
+	return names, ws
+}
+
+func genSlb(r *vh.Rand) string {
+	fn, fw := genBackends(r, slbAddrs, 2, 5)
+	tot := 0
+	for _, w := range fw {
+		tot += w
+	}
+	if tot == 0 {
+		fw[0] = 1
+		tot = 1
+	}
+	var hist []string
+	nh := r.Intn(4)
+	for i := 0; i < nh; i++ {
+		switch r.Intn(4) {
+		case 0: // any other backend set
+			n, w := genBackends(r, slbAddrs, 1, 5)
+			hist = append(hist, fmtConf(n, w))
+		case 1, 2: // SAME COUNT as the final set, some backends replaced (the final Update swaps N for N)
+			n := append([]string(nil), fn...)
+			w := append([]int(nil), fw...)
+			k := r.Range(1, len(n))
+			repl := subset(r, slbAddrs, len(slbAddrs), len(slbAddrs))
+			for j := 0; j < k; j++ {
+				for _, cand := range repl {
+					used := false
+					for _, x := range n {
+						if x == cand {
+							used = true
+						}
+					}
+					for _, x := range fn {
+						if x == cand {
+							used = true
+						}
+					}
+					if !used {
+						n[r.Intn(len(n))] = cand
+						break
+					}
+				}
+			}
+			// shuffle file order
+			for a := len(n) - 1; a > 0; a-- {
+				b := r.Intn(a + 1)
+				n[a], n[b] = n[b], n[a]
+			}
+			hist = append(hist, fmtConf(n, w))
+		default:
+			n, w := genBackends(r, fn, 1, len(fn)) // a sub-set: the final Update adds backends
+			hist = append(hist, fmtConf(n, w))
+		}
+		if r.Chance(2, 3) {
+			hist = append(hist, "!") // a sticky request was served: the list got sorted
+		}
+	}
+	h := "-"
+	if len(hist) > 0 {
+		h = strings.Join(hist, ";")
+	}
+	nk := r.Range(3, 6)
+	var keys []string
+	for i := 0; i < nk; i++ {
+		k := fmt.Sprintf("client-%d", r.Intn(1000))
+		keys = append(keys, fmt.Sprintf("%s:%d", k, bal_slb.GetHash([]byte(k), uint(tot*100))))
+	}
+	return "slb " + h + "~" + fmtConf(fn, fw) + "~" + strings.Join(keys, ",")
+}
+
 // ---- generator -------------------------------------------------------------------------------
 
 var hostPool = []string{"a.com", "b.com", "www.a.com", "*.a.com", "x.org", "*.org", "n1.example.net"}
@@ -361,8 +560,11 @@ func jlist(xs []string) string {
 }
 
 func gen(r *vh.Rand) string {
-	if r.Chance(1, 2) {
+	switch r.Intn(6) {
+	case 0, 1:
 		return genGslb(r)
+	case 2, 3:
+		return genSlb(r)
 	}
 	nprod := r.Range(1, 3)
 	ntag := r.Range(1, 3)
